@@ -53,7 +53,10 @@ VARIABLES st,       \* [Shards -> mechanism state]
           hist
 
 vars == <<st, gh, lastw, ret, nres, hist>>
-View == <<st, gh, lastw, ret, nres>>
+(* the behaviour length is part of the view: Next is bounded by Len(hist), so states that differ
+   only in depth must not be merged, or the bound would cut some of them short depending on
+   the order in which TLC's workers find them *)
+View == <<st, gh, lastw, ret, nres, Len(hist)>>
 
 -------------------------------------------------------------------------------
 (* helpers *)
